@@ -864,3 +864,5 @@ func Fallocate(fd int, mode uint32, off int64, length int64) error {
 	}
 	return nil
 }
+
+func Getpid() int { return 4242 }
